@@ -18,24 +18,29 @@ SessPlain ==
                C1 |-> Class(DefaultOpts, <<U1("a"), RefF("s", "C2"), RepCountF("k", RefF("e", "C2"), SzField("a"), NoCond, 0)>>),
                C2 |-> Class(DefaultOpts, <<WithDflt(U1("x"), 3), U1("y")>>),
                \* a count expression that raises half-way for n = 0: a failed parse must not disturb later ones
-               C3 |-> Class(DefaultOpts, <<U1("n"), RepCountF("r", U1("e"), SzExpr(EBin("add", EC(1), EBin("floordiv", EC(2), EF("n"))), "deferred"), NoCond, 0)>>)],
-     classes |-> {"C0", "C1", "C3"},
+               C3 |-> Class(DefaultOpts, <<U1("n"), RepCountF("r", U1("e"), SzExpr(EBin("add", EC(1), EBin("floordiv", EC(2), EF("n"))), "deferred"), NoCond, 0)>>),
+               \* a repeated field that a parse skips (its condition is false): every such packet gets a list of its own
+               C4 |-> Class(DefaultOpts, <<U1("t"), RepCountF("r", U1("e"), SzConst(1), SzField("t"), 0)>>)],
+     classes |-> {"C0", "C1", "C3", "C4"},
      raws |-> [C0 |-> {<<0, 1, 2>>, <<1, 9, 1, 2>>, <<2, 9>>}, C1 |-> {<<0, 1, 2>>, <<1, 1, 2, 3, 4>>},
-               C3 |-> {<<0, 5>>, <<1, 5, 6, 7>>, <<2, 5, 6>>}],
-     kws |-> [C0 |-> {<<>>, <<[n |-> "t", v |-> IntV(1)]>>}, C1 |-> {<<>>}, C3 |-> {<<>>}],
+               C3 |-> {<<0, 5>>, <<1, 5, 6, 7>>, <<2, 5, 6>>}, C4 |-> {<<0>>, <<1, 5>>}],
+     kws |-> [C0 |-> {<<>>, <<[n |-> "t", v |-> IntV(1)]>>}, C1 |-> {<<>>}, C3 |-> {<<>>}, C4 |-> {<<>>}],
      sets |-> [C0 |-> {[n |-> "t", v |-> IntV(2)], [n |-> "r", v |-> ListV(<<IntV(1), IntV(2)>>)]}, C1 |-> {[n |-> "a", v |-> IntV(0)]},
-               C3 |-> {[n |-> "n", v |-> IntV(1)]}],
+               C3 |-> {[n |-> "n", v |-> IntV(1)]}, C4 |-> {}],
      appendval |-> IntV(4),
      \* the classes are defined locally (prototypes are cloned by deep copy) and the user keeps the prototype instance
      local |-> TRUE, protos |-> {[cls |-> "C0", f |-> "s", a |-> "x", v |-> 99], [cls |-> "C0", f |-> "s", a |-> "y", v |-> 98]}]
 \* a body ended by a regex delimiter that is not kept: the field object remembers the match (F2)
 SessRegex ==
     [prog |-> [C0 |-> Class(DefaultOpts, <<U1("n"), DataF("body", SzRegex("crlf", FALSE, TRUE)), U1("z")>>),
-               C1 |-> Class(DefaultOpts, <<DataF("line", SzRegex("Xplus", FALSE, TRUE)), DataF("rest", SzMarker(<<0>>, FALSE, TRUE))>>)],
-     classes |-> {"C0", "C1"},
-     raws |-> [C0 |-> {<<1, 65, 13, 10, 2>>, <<1, 66, 10, 3>>, <<1, 65>>}, C1 |-> {<<65, 88, 66, 0>>, <<65, 88, 88, 0>>}],
-     kws |-> [C0 |-> {<<>>}, C1 |-> {<<>>}],
-     sets |-> [C0 |-> {[n |-> "n", v |-> IntV(2)]}, C1 |-> {[n |-> "rest", v |-> BytesV(<<67>>)]}],
+               C1 |-> Class(DefaultOpts, <<DataF("line", SzRegex("Xplus", FALSE, TRUE)), DataF("rest", SzMarker(<<0>>, FALSE, TRUE))>>),
+               \* a bytes delimiter that is neither kept nor consumed (the next field reads it): a constant of the declaration
+               C2 |-> Class(DefaultOpts, <<DataF("k", SzMarker(<<10>>, FALSE, FALSE)), U1("nl"), U1("z")>>)],
+     classes |-> {"C0", "C1", "C2"},
+     raws |-> [C0 |-> {<<1, 65, 13, 10, 2>>, <<1, 66, 10, 3>>, <<1, 65>>}, C1 |-> {<<65, 88, 66, 0>>, <<65, 88, 88, 0>>},
+               C2 |-> {<<65, 10, 7>>, <<10, 7>>}],
+     kws |-> [C0 |-> {<<>>}, C1 |-> {<<>>}, C2 |-> {<<>>, <<[n |-> "k", v |-> BytesV(<<66>>)]>>}],
+     sets |-> [C0 |-> {[n |-> "n", v |-> IntV(2)]}, C1 |-> {[n |-> "rest", v |-> BytesV(<<67>>)]}, C2 |-> {}],
      appendval |-> IntV(4), local |-> FALSE, protos |-> {}]
 
 \* the documented idiom  Ref(type.chooses({1: Sub()}))  : the selector hands out ONE packet instance (F3)
@@ -47,6 +52,17 @@ SessSelector ==
      raws |-> [C0 |-> {<<1, 5, 6>>, <<1, 7, 8>>, <<0, 9>>}],
      kws |-> [C0 |-> {<<>>}],
      sets |-> [C0 |-> {[n |-> "t", v |-> IntV(0)]}],
+     appendval |-> IntV(4), local |-> FALSE, protos |-> {}]
+
+\* described fields: a length computed from the body unless the user assigned it (constructor keyword or attribute)
+SessDesc ==
+    [prog |-> [C0 |-> Class(DefaultOpts, <<[U1("n") EXCEPT !.desc = [kind |-> "autolen", of |-> "d"]],
+                                           WithDflt(DataF("d", SzMarker(<<0>>, FALSE, TRUE)), <<65>>), U1("z")>>),
+               C1 |-> Class(DefaultOpts, <<U1("a"), [IntF("s", 2, FALSE, "default") EXCEPT !.desc = [kind |-> "auto", e |-> EBin("add", EF("a"), EC(1))]]>>)],
+     classes |-> {"C0", "C1"},
+     raws |-> [C0 |-> {<<1, 65, 0, 9>>, <<5, 0, 9>>, <<1, 65>>}, C1 |-> {<<1, 0, 2>>, <<3, 1, 1>>}],
+     kws |-> [C0 |-> {<<>>, <<[n |-> "n", v |-> IntV(5)]>>}, C1 |-> {<<>>, <<[n |-> "s", v |-> IntV(7)]>>}],
+     sets |-> [C0 |-> {[n |-> "n", v |-> IntV(7)], [n |-> "d", v |-> BytesV(<<66, 67>>)]}, C1 |-> {[n |-> "a", v |-> IntV(4)], [n |-> "s", v |-> IntV(300)]}],
      appendval |-> IntV(4), local |-> FALSE, protos |-> {}]
 
 \* thread profile: one class, two inputs (one per thread)
